@@ -162,7 +162,8 @@ def clear_caches():
 def registry_at(root: str):
     from forml.provider.registry.filesystem import posix
 
-    return posix.Registry(root)
+    staging = os.environ.get('VF_C05_STAGING')  # an explicit staging area, possibly on another file system
+    return posix.Registry(root, staging=staging) if staging else posix.Registry(root)
 
 
 def build_package(base: str, name: str, version: str) -> dict:
